@@ -219,7 +219,11 @@ def src_case(draw):
     n_src = draw(st.integers(1, 3))
     secs = []
     for i in range(n_src):
-        code = head + draw(st.text(st.sampled_from(D.HEX), min_size=2, max_size=2)) + comp2 + \
+        h = head
+        if route != 'direct' and draw(st.integers(0, 2)) == 0:
+            # BMC PELs mix ordinary and hostboot (BC) reference codes of the same component byte
+            h = 'BC' if head != 'BC' else draw(st.sampled_from(['BD', '11']))
+        code = h + draw(st.text(st.sampled_from(D.HEX), min_size=2, max_size=2)) + comp2 + \
             draw(st.text(st.sampled_from(D.HEX), min_size=2, max_size=2))
         cl = None
         if draw(st.booleans()):
@@ -245,6 +249,9 @@ def src_case(draw):
         target = 'bsrc' if route == 'bmc-bc' else 'o' + comp2.lower() + '00'
         if draw(st.integers(0, 4)) != 0:
             spec_src[target] = draw(behaviour)
+        other = 'o' + comp2.lower() + '00' if route == 'bmc-bc' else 'bsrc'
+        if draw(st.booleans()):
+            spec_src[other] = draw(behaviour)
         spec_src.setdefault('o' + comp2.lower()[::-1] + '00', BENIGN)     # decoy
         if 'oe500' in spec_src:
             del spec_src['oe500']
